@@ -4,9 +4,12 @@ PROPS = {
     "C17": {
         "modules": ["specs.socket_model", "contracts.socketutil"],
         "contracts": ["Pyro5.socketutil.receive_data", "Pyro5.socketutil.send_data"],
+        "lemmas": ["C17:retry-delays-never-end"],
         "harness": "replay/c17.py",
         "explanation": "receive_data/send_data verified against ghost stream/out sequences of an assumed socket contract; "
-                       "all sizes, all fragmentations, all error scripts, any number of loop iterations",
+                       "all sizes, all fragmentations, all error scripts, any number of loop iterations; connection-closed is raised only after a read reported end of "
+                       "stream or a fatal socket error.  Lemma retry-delays-never-end (syntactic): the back-off generator both functions draw from with next() closes with "
+                       "`while True:` around a yield without break / return / raise, so it is never exhausted (the two contracts assume next(delays) yields a value).",
         "assumptions": ["socket objects behave as specs/socket_model.py states (validated against a scripted fake only)",
                         "socket.error instances carry an int errno (None-errno is covered by 'not in ERRNO_RETRIES') and non-empty args",
                         "ERRNO_RETRIES / USE_MSG_WAITALL are arbitrary but fixed during a call"],
@@ -95,6 +98,8 @@ PROPS.update({
                    {"modules": ["specs.socket_model", "specs.pystruct", "specs.seqdict", "specs.opaque", "specs.daemon_model", "contracts.server_loops"],
                     "contracts": ["Pyro5.svr_threads.SocketServer_Threadpool.events", "Pyro5.svr_threads.SocketServer_Threadpool.loop",
                                   "Pyro5.svr_multiplex.SocketServer_Multiplex.events"]},
+                   {"modules": ["specs.socket_model", "specs.pystruct", "specs.seqdict", "specs.opaque", "specs.daemon_model", "contracts.server_loops", "contracts.mux_loop"],
+                    "contracts": ["Pyro5.svr_multiplex.SocketServer_Multiplex.loop"]},
                    {"modules": ["specs.socket_model", "specs.seqdict", "specs.opaque", "specs.daemon_model", "contracts.threadpool"],
                     "contracts": ["Pyro5.svr_threads.Worker.run", "Pyro5.svr_threads.Pool.notify_done", "Pyro5.svr_threads.Pool.process"]}],
         "harness": ["replay/dispatch.py", "replay/c18.py"],
@@ -107,14 +112,14 @@ PROPS.update({
                        "header and payload bytes, whatever the length fields say.  Third group: the thread server's accept path - events() turns an accepted connection into exactly "
                        "one job offered to the pool once, denies (with a reason) exactly the jobs the pool refuses, and lets only OS errors of select/accept escape, before any "
                        "job exists; loop() contains those, so that only the caller's own loop condition can end the request loop with an exception; the multiplex server's events() (loop invariant over the "
-                       "event sockets) lets only ConnectionClosedError from the accept path (listening socket gone) and the owner's housekeeping hook escape.  Fourth group (shared with C18): "
+                       "event sockets) lets only ConnectionClosedError from the accept path (listening socket gone) and the owner's housekeeping hook escape; the multiplex server's loop() (own group, contracts/mux_loop.py) contains a failing select() (counts as 'no events'), swallows socket timeouts, "
+                       "ends normally on KeyboardInterrupt, and lets an exception out only from the caller's loopCondition(), a server's events() or the housekeeping hook.  Fourth group (shared with C18): "
                        "the worker side of 'never strands a worker' - Worker.run calls the job in its slot exactly once, whatever the job raises, clears the slot BEFORE it reports done "
                        "(so a job handed over right after notify_done is never lost) and always reports done; notify_done puts the worker back among the idle ones (or tells it to exit); "
                        "process hands a job only to a worker that is idle or new.",
         "assumptions": _COMMON_ASSUME + ["liveness (a silent peer blocking a read without COMMTIMEOUT), resource exhaustion and the scheduler are outside the technique",
-                                         "accept path: the pool is open while the loop runs; OS-raised errors carry (errno, text); the multiplex server's loop() (selector "
-                                         "bookkeeping around events()) is covered by the bounded harness only",
-                                         "the accept loops SocketServer_*.events/loop around these handlers are covered by the bounded native harness only"],
+                                         "accept path: the pool is open while the loop runs; OS-raised errors carry (errno, text); that the multiplex loop() hands every server exactly the sockets "
+                                         "that were readable (the defaultdict grouping) is covered by the bounded harness only"],
     },
     "C13": {
         "modules": _DISPATCH_MODS,
